@@ -58,6 +58,9 @@ extern "C" int harness_main() {
     int shape = verif_choice("shape", NSHAPES);
     if (!((SHAPES >> shape) & 1)) { verif_end_path(); return 0; }
     const auto *schema = shape_schema(shape);
+    // wiring + graph compilation do not depend on the history: done before the history is enumerated so that all
+    // histories of a shape share it
+    GraphBuilder gb = build_for(shape);
 
     // ---- 1. the original history and its recording
     std::vector<std::optional<Value>> in;
@@ -94,7 +97,6 @@ extern "C" int harness_main() {
     }
 
     // ---- 2. replay it into a recorder in a real graph
-    GraphBuilder gb = build_for(shape);
     testing::set_replay_deltas(gb.global_state(), "in", in);
     GraphExecutorBuilder eb;
     eb.graph_builder(std::move(gb)).start_time(MIN_ST).end_time(MIN_ST + TimeDelta{NCYC + 2});
